@@ -83,7 +83,6 @@ package crypto
 //@ func Sig2Addr(msg, sig)
 //@   nopanic
 //@   modifies nothing
-//@   allocates bytes
 //@   ensures result2 == nil ==> len(result0) == 20 && content(result0) == sigaddr(content(msg), content(sig)) && sig != nil
 //@   ensures result2 != nil ==> result0 == nil && result1 == nil
 //@   assert@call(SigToPub,0): content($arg0) == sha256of(content(msg)) && $arg1 == sig                           [C03]
